@@ -42,11 +42,17 @@ struct PbDfs {
     steps: usize,
     preemptions: usize,
     done: bool,
+    /// where the path of the last execution is published (process-per-execution mode reads it back)
+    publish: Option<std::sync::Arc<std::sync::Mutex<Vec<(usize, usize)>>>>,
 }
 
 impl PbDfs {
     fn new(bound: usize, max_iterations: Option<usize>) -> Self {
-        PbDfs { bound, max_iterations, iterations: 0, levels: vec![], steps: 0, preemptions: 0, done: false }
+        PbDfs { bound, max_iterations, iterations: 0, levels: vec![], steps: 0, preemptions: 0, done: false, publish: None }
+    }
+    /// ONE execution that follows `prefix` (a path of (choice, alternatives) pairs) and takes choice 0 afterwards
+    fn single(bound: usize, prefix: Vec<(usize, usize)>, publish: std::sync::Arc<std::sync::Mutex<Vec<(usize, usize)>>>) -> Self {
+        PbDfs { bound, max_iterations: Some(1), iterations: 0, levels: prefix, steps: 0, preemptions: 0, done: false, publish: Some(publish) }
     }
 }
 
@@ -107,10 +113,18 @@ impl shuttle::scheduler::Scheduler for PbDfs {
             0
         };
         let choice = allowed[idx];
+        if std::env::var("SCHED_TRACE").is_ok() {
+            eprintln!("step {} cur={:?} yielding={} runnable={:?} allowed={:?} -> {:?} (preemptions so far {})", self.steps, cur, is_yielding, ids, allowed, choice, self.preemptions);
+        }
         if cur.is_some() && !is_yielding && Some(choice) != cur {
             self.preemptions += 1;
         }
         self.steps += 1;
+        if let Some(p) = &self.publish {
+            if let Ok(mut g) = p.lock() {
+                *g = self.levels.clone();
+            }
+        }
         Some(choice)
     }
 
@@ -139,6 +153,31 @@ fn explore_inner<F: Fn() + Send + Sync + 'static>(name: &str, rule: &str, cap: O
     let mut cfg = Config::default();
     cfg.failure_persistence = shuttle::FailurePersistence::None;
     let bound: Option<usize> = std::env::var("SCHED_PREEMPTION_BOUND").ok().and_then(|b| b.parse().ok());
+    // process-per-execution mode: this process performs exactly ONE execution along the given path prefix and
+    // prints the complete path; the parent does the depth-first search over processes, so that every execution
+    // starts from a fresh process image (statics, thread-locals and OnceLocks of the subject included)
+    if let Ok(prefix) = std::env::var("SCHED_SINGLE_PREFIX") {
+        let path: Vec<(usize, usize)> = prefix.split(';').filter(|x| !x.is_empty()).map(|x| { let mut it = x.split(','); (it.next().unwrap().parse().unwrap(), it.next().unwrap().parse().unwrap()) }).collect();
+        let cell = std::sync::Arc::new(std::sync::Mutex::new(vec![]));
+        let runner = Runner::new(PbDfs::single(bound.unwrap_or(0), path, cell.clone()), cfg);
+        let r = std::panic::catch_unwind(std::panic::AssertUnwindSafe(|| runner.run(f)));
+        let levels = cell.lock().map(|g| g.clone()).unwrap_or_default();
+        let failure = match r {
+            Ok(_) => Value::Null,
+            Err(e) => json!(if let Some(s) = e.downcast_ref::<String>() { s.clone() } else if let Some(s) = e.downcast_ref::<&str>() { s.to_string() } else { "panic".to_string() }),
+        };
+        return json!({"name": name, "rule": rule, "single": true, "levels": levels.iter().map(|(i, n)| vec![*i, *n]).collect::<Vec<_>>(), "failure": failure});
+    }
+    if std::env::var("SCHED_RANDOM").is_ok() {
+        // diagnostic only (sampling): random schedules, used to validate a group's oracle against a known race
+        let runner = Runner::new(shuttle::scheduler::RandomScheduler::new(cap.unwrap_or(10_000)), cfg);
+        let r = std::panic::catch_unwind(std::panic::AssertUnwindSafe(|| runner.run(f)));
+        let failure = match r {
+            Ok(n) => json!({"ok_after": n}),
+            Err(e) => json!(if let Some(s) = e.downcast_ref::<String>() { s.clone() } else if let Some(s) = e.downcast_ref::<&str>() { s.to_string() } else { "panic".to_string() }),
+        };
+        return json!({"name": name, "rule": rule, "random": true, "failure": failure});
+    }
     let r = match bound {
         Some(b) => {
             let runner = Runner::new(PbDfs::new(b, cap), cfg);
@@ -186,6 +225,62 @@ fn main() {
                     thread::spawn(move || {
                         let a = Actor::new(&s);
                         run_actor_checked(&s, &e, 0, e.len(), a);
+                    })
+                })
+                .collect();
+            for h in hs {
+                h.join().unwrap();
+            }
+        }));
+    }
+
+    // G1b: first sights. Process-wide tables keyed by the flop are only ever *filled* on first sight; inside one
+    // process that happens once, in the very first (preemption-free) execution, and the schedules that interleave two
+    // first sights are never reached. This group is therefore explored ONE EXECUTION PER PROCESS (see
+    // SCHED_SINGLE_PREFIX): both threads build an evaluator on flop X (two first sights of the same flop), then on flop
+    // Y (a later first sight, then a second use). In-process exploration advances through the flop list instead, so
+    // that it stays meaningful too. The oracle is structural, so no solo run has to touch the flop first:
+    // the board starts with the evaluator's own flop, the five board cards are distinct, hole cards are the range's
+    // and lie off the board.
+    {
+        use espada::evaluator::FlopExhaustiveEvaluator;
+        use espada::hand_range::HandRange;
+        use cards::{all_flops, board_opt, card_text, cards_text, idx_of};
+        let hole: Vec<u8> = vec![7 * 4, 7 * 4 + 1, 9 * 4 + 2, 9 * 4 + 1]; // 7s7h, 5d5h
+        let flops: Vec<[u8; 3]> = all_flops().into_iter().filter(|f| f.iter().all(|c| !hole.contains(c))).collect();
+        let fresh = std::sync::Arc::new(AtomicUsize::new(0));
+        let flops = std::sync::Arc::new(flops);
+        out.push(explore("two-threads/x-then-y", "two shuttle threads; in execution k both build an evaluator on flop 2k of the flop list (a flop the process has not seen), take two showdowns and drop it, then do the same on flop 2k+1; one yield_now() per evaluator; oracle from the evaluator's own inputs alone (own flop first, turn and river the cards of its own deck at the position, five distinct board cards, the range's hole cards off the board)", cap, move || {
+            let k = fresh.fetch_add(1, Ordering::Relaxed);
+            // X and Y share no card, and the scope starts at the first deck card: a deck that belongs to another flop shows
+            let (fx, fy) = (flops[(2 * k) % flops.len()], flops[(flops.len() / 2 + 2 * k + 1) % flops.len()]);
+            let hs: Vec<_> = (0..2)
+                .map(|_| {
+                    thread::spawn(move || {
+                        let ranges: Vec<HandRange> = vec!["7s7h".parse().unwrap(), "5d5h,7s7h:0.5".parse().unwrap()];
+                        for flop in [fx, fy] {
+                            // ONE yield per evaluator (call-granularity interleavings of this group are few on purpose: the
+                            // schedules of interest are those that switch INSIDE a call, at the subject's own lock operations)
+                            thread::yield_now();
+                            let mut ev = FlopExhaustiveEvaluator::new(&board_opt(&flop), &ranges);
+                            ev.scope(0, 1, 0, 4);
+                            let mut it = ev.into_iter();
+                            let own_deck = cards::deck_without(&flop);
+                            for k in 0..2usize {
+                                if let Some(sd) = it.next() {
+                                    // one legal deal per position here: showdown k is at position (0, k + 1) of the evaluator's OWN deck
+                                    let b4: Vec<u8> = sd.board().iter().map(idx_of).collect();
+                                    assert!(b4[3] == own_deck[0] && b4[4] == own_deck[k + 1], "an evaluator on flop {} dealt turn/river {} where its own deck has {}{}", cards_text(&flop), cards_text(&b4[3..5]), card_text(own_deck[0]), card_text(own_deck[k + 1]));
+                                    let b: Vec<u8> = sd.board().iter().map(idx_of).collect();
+                                    let mut sorted = b.clone();
+                                    sorted.sort_unstable();
+                                    sorted.dedup();
+                                    let holes: Vec<u8> = sd.players().iter().flat_map(|p| { let h = p.hole_cards(); [idx_of(&h[0]), idx_of(&h[1])] }).collect();
+                                    let ok = b[0..3] == flop[..] && sorted.len() == 5 && holes.iter().all(|h| !b.contains(h));
+                                    assert!(ok, "an evaluator on flop {} dealt the board {} to the hole cards {}", cards_text(&flop), cards_text(&b), holes.iter().map(|h| card_text(*h)).collect::<String>());
+                                }
+                            }
+                        }
                     })
                 })
                 .collect();
